@@ -181,6 +181,7 @@ type UseBlock struct {
 	Encl  UseEncl
 	File  int   // 0 a.go, 1 b.go, 2 c_test.go
 	Stmts []int // indices into the site alphabet (only for enclosers with a body)
+	ID    int   // stable identity across layout transformations (0 = position in the history)
 }
 
 func (b UseBlock) String() string {
@@ -199,6 +200,7 @@ type UseSpec struct {
 	Sites  []UseSite
 	ForTONL bool // omit sites that are not judged for @testonly
 	BlankLines bool
+	Mangle   int
 	IgnoreAt *IgnoreIns // optional @ignore comment insertion (C07/C17)
 }
 
@@ -446,7 +448,7 @@ func RenderUse(s *UseSpec) *UseRendered {
 		if w == nil {
 			continue
 		}
-		pk.Files = append(pk.Files, prog.File{Name: FileNames[i], Src: w.b.String()})
+		pk.Files = append(pk.Files, prog.File{Name: FileNames[i], Src: Mangle(s.Mangle, w.b.String())})
 		for _, si := range perFile[i] {
 			si.File = s.Pkg.Path + "/" + FileNames[i]
 			out.Sites = append(out.Sites, si)
@@ -638,7 +640,11 @@ func UseObserve(fam string, s *UseSpec) (map[string]string, []string, string, st
 		got := obs[k]
 		delete(obs, k)
 		sort.Strings(got)
-		by[fmt.Sprintf("%d.%d/%s", si.Block, si.Ord, si.Tag)] = strings.Join(got, ",")
+		id := si.Block + 1
+		if si.Block >= 0 && s.Blocks[si.Block].ID != 0 {
+			id = s.Blocks[si.Block].ID
+		}
+		by[fmt.Sprintf("%d.%d/%s", id, si.Ord, si.Tag)] = strings.Join(got, ",")
 	}
 	var rest []string
 	for k, c := range obs {
